@@ -752,7 +752,8 @@ impl<T: ArrayValue> Array<T> {
             validate_shape(&self.shape, self.data.len());
             let is_sorted_up = self.meta.is_sorted_up();
             let is_sorted_down = self.meta.is_sorted_down();
-            if is_sorted_up || is_sorted_down {
+            // Rows without elements are all equal
+            if (is_sorted_up || is_sorted_down) && self.row_len() > 0 {
                 let mut rows = (0..self.row_count()).map(|i| self.row_slice(i));
                 if let Some(prev) = rows.next() {
                     let mut prev = ArrayCmpSlice(prev);
